@@ -1,5 +1,5 @@
-chk('C09', 'model_checking A bystander system is clocked in lockstep before every clock call of the system under test; when a fresh replay disagrees with the snapshot/restore walk, further fresh systems decide whether the behaviour is history dependent (a violation).',
-    'Explicit-state BFS of the product (live py4hw block x reference state machine) with every input vector on every step, to closure of the reachable graph, for every block/parameter configuration in the stated bounds; histories of any length are covered at those configurations.',
+chk('C09', 'model_checking',
+    'Explicit-state BFS of the product (live py4hw block x reference state machine) with every input vector on every step, to closure of the reachable graph, for every block/parameter configuration in the stated bounds; histories of any length are covered at those configurations. A bystander system is clocked in lockstep before every clock call of the system under test; when a fresh replay disagrees with the snapshot/restore walk, further fresh systems decide whether the behaviour is history dependent (a violation).',
     'Reference machines (mc/refmodels/seq.py) are trusted; widths/depths/moduli above the bound are not covered; snapshot/restore is validated by replaying every BFS-tree path on a fresh system.',
     'explicit-state model checking of the implementation against a reference machine (product BFS, all inputs per step)',
     'DESIGN.md 4/C09')
@@ -13,13 +13,13 @@ chk('C05', 'model_checking',
     'Designs and widths above the bound are not covered; for designs with more than 5 sequential leaves only a stated subset of permutations is used and the evidence marks the shard capped.',
     'explicit-state search with exhaustive schedule (visit-order permutation) enumeration per transition',
     'DESIGN.md 4/C05')
-chk('C07', 'exploration Every vector is applied twice on the live instance (ascending pass, then descending pass); an elaborated-only twin of the configuration and a bystander system with its own simulator are alive in the same process; life-cycle variants obtain the simulator on the empty system first.',
-    'Complete truth tables: every arithmetic block x every constructor option x every combination of port widths up to the bound (each port width varied independently) x all input vectors, compared with Python integer arithmetic reduced modulo 2**(output width); zero divisors and rotation amounts above the data width are skipped and counted.',
+chk('C07', 'exploration',
+    'Complete truth tables: every arithmetic block x every constructor option x every combination of port widths up to the bound (each port width varied independently) x all input vectors, compared with Python integer arithmetic reduced modulo 2**(output width); zero divisors and rotation amounts above the data width are skipped and counted. Every vector is applied twice on the live instance (ascending pass, then descending pass); an elaborated-only twin of the configuration and a bystander system with its own simulator are alive in the same process; life-cycle variants obtain the simulator on the empty system first.',
     'Reference functions in mc/refmodels/arith.py are trusted; widths above the bound (quick 3, thorough 6-8 bits) are not covered.',
     'bounded exhaustive input/configuration enumeration against an integer reference',
     'DESIGN.md 4/C07')
-chk('C08', 'exploration Every vector is applied twice on the live instance (ascending, then descending); an elaborated-only twin and a bystander system are alive in the same process; a constructor refusing a configuration of the documented grid is a violation.',
-    'Complete truth tables: every gate / bit-manipulation / selector / comparator block x every arity, width, constant, minterm subset and priority direction in the bound x all input vectors, compared with reference truth tables written from the docstrings; outputs are compared only where the documentation defines them (one-hot preconditions etc.), skipped vectors counted.',
+chk('C08', 'exploration',
+    'Complete truth tables: every gate / bit-manipulation / selector / comparator block x every arity, width, constant, minterm subset and priority direction in the bound x all input vectors, compared with reference truth tables written from the docstrings; outputs are compared only where the documentation defines them (one-hot preconditions etc.), skipped vectors counted. Every vector is applied twice on the live instance (ascending, then descending); an elaborated-only twin and a bystander system are alive in the same process; a constructor refusing a configuration of the documented grid is a violation.',
     'Reference tables in mc/refmodels/logic.py are trusted; arities/widths above the bound are not covered; behaviour outside documented preconditions is not judged.',
     'bounded exhaustive input/configuration enumeration against reference truth tables',
     'DESIGN.md 4/C08')
@@ -28,8 +28,8 @@ chk('C10', 'model_checking',
     'The ungated twin defines the ungated step (block step functions themselves are checked in C09); block set, widths and hierarchy depth are bounded.',
     'explicit-state model checking against a twin-derived reference with schedule (driver order) enumeration',
     'DESIGN.md 4/C10')
-chk('C11', 'model_checking A names part runs every history of <= D calls over all wire-creating APIs (Logic.wire, Wire, wires, bidir_wire, Interface signals) and structural classes sharing the short name of a library primitive; wire objects never claim the same (parent, name).',
-    'BFS over all construction-operation sequences up to the depth bound (wire/Buf/Constant/child/wrapper creation, rename, reparent, reparentAndRename) deduplicated on a reference netlist state; every transition is replayed on fresh real py4hw objects and must raise exactly when the statement requires, leaving the earlier driver/child/wire in place, with the resulting structure equal to the model; plus checkIntegrity acceptance over a 102-block catalogue and every single-fault variant (each input undriven, each driver removed, each duplicated driver).',
+chk('C11', 'model_checking',
+    'BFS over all construction-operation sequences up to the depth bound (wire/Buf/Constant/child/wrapper creation, rename, reparent, reparentAndRename) deduplicated on a reference netlist state; every transition is replayed on fresh real py4hw objects and must raise exactly when the statement requires, leaving the earlier driver/child/wire in place, with the resulting structure equal to the model; plus checkIntegrity acceptance over a 102-block catalogue and every single-fault variant (each input undriven, each driver removed, each duplicated driver). A names part runs every history of <= D calls over all wire-creating APIs (Logic.wire, Wire, wires, bidir_wire, Interface signals) and structural classes sharing the short name of a library primitive; wire objects never claim the same (parent, name).',
     'Reference netlist model (mc/refmodels/netlist.py) trusted; sequences bounded by depth and live wires; catalogue at widths 2-3.',
     'explicit-state search over operation sequences with replay on the implementation; exhaustive single-fault enumeration',
     'DESIGN.md 4/C11')
@@ -43,8 +43,8 @@ chk('C14', 'exploration',
     'Fraction reference trusted; formats above the bound not covered; "rescaled by truncation" accepted as floor or toward-zero consistently per configuration.',
     'bounded exhaustive input/configuration enumeration against exact rational arithmetic',
     'DESIGN.md 4/C14')
-chk('C15', 'exploration A rerender family (render, optionally clear or a refused duplicate recorder, as many cycles again without observing, render) checks that observing does not influence later observations and that diagrams handed out are not changed afterwards.',
-    'All value sequences up to length L on a 1-bit and a wide watched wire (poked and register-driven), all clk(n) splittings, clear()/clk(0) at every position, 19 watch-list shapes (duplicates, port aliases, mixed order); the recorder\'s samples and an independent decoder of the WaveDrom rendering are compared with the harness\'s own per-cycle log at every node of the history tree; sampled nodes are replayed on fresh systems.',
+chk('C15', 'exploration',
+    'All value sequences up to length L on a 1-bit and a wide watched wire (poked and register-driven), all clk(n) splittings, clear()/clk(0) at every position, 19 watch-list shapes (duplicates, port aliases, mixed order); the recorder\'s samples and an independent decoder of the WaveDrom rendering are compared with the harness\'s own per-cycle log at every node of the history tree; sampled nodes are replayed on fresh systems. A rerender family (render, optionally clear or a refused duplicate recorder, as many cycles again without observing, render) checks that observing does not influence later observations and that diagrams handed out are not changed afterwards.',
     'Bounded history length (recorder state grows without bound, so no closure); WaveJSON decoder in mc/refmodels/wave.py trusted.',
     'bounded exhaustive history enumeration (prefix tree with snapshot/restore) against a reference log and decoder',
     'DESIGN.md 4/C15')
@@ -53,8 +53,8 @@ chk('C01', 'model_checking',
     'The Verilog engine (mc/vlog: IEEE 1364-2005 sizing/signedness, two-state, 0 power-up for uninitialised regs) is trusted base with its own self-tests; designs above 8 input bits use a corner alphabet (evidence says so); division/modulo by zero pruned; BidirBuf/multi-clock designs outside the subset.',
     'explicit-state model checking of the product of two implementations (simulator x interpreter of the emitted RTL)',
     'DESIGN.md 3, 4/C01')
-chk('C03', 'exploration A hist family lints the hierarchy text after every short history of requests, simulation steps and one structural edit on the circuits of C19 (reused and fresh generator).',
-    'Every Verilog text generated for the C01 catalogue and placements, for pairs of blocks emitted under the same module name, and for an exhaustive naming grid (port/wire/instance/top-level names incl. reserved words and names that collide after prefixing) is parsed and elaborated by the /verif front end applying rules R1-R7; R8 (same module name => same port list) is evaluated across the whole run.',
+chk('C03', 'exploration',
+    'Every Verilog text generated for the C01 catalogue and placements, for pairs of blocks emitted under the same module name, and for an exhaustive naming grid (port/wire/instance/top-level names incl. reserved words and names that collide after prefixing) is parsed and elaborated by the /verif front end applying rules R1-R7; R8 (same module name => same port list) is evaluated across the whole run. A hist family lints the hierarchy text after every short history of requests, simulation steps and one structural edit on the circuits of C19 (reused and fresh generator).',
     'Front end in mc/vlog is the judge of legality (Verilog-2005); generation that raises is counted as refusal; naming grid bounded to the stated name list and wrapper shape.',
     'bounded exhaustive program/configuration enumeration with a parser+elaborator as oracle',
     'DESIGN.md 3, 4/C03')
@@ -68,8 +68,8 @@ chk('C19', 'model_checking',
     'Normalisation (id renumbering, sorting of wire-declaration runs) is the only tolerance; five circuit kinds; depth bound H (4 quick, 5 thorough).',
     'bounded exhaustive history enumeration on the implementation with a differential (canonical / twin) oracle',
     'DESIGN.md 4/C19')
-chk('C02', 'model_checking A decoy class whose port names are the programs\' variable names is transpiled first in every shard; must-refuse probes, wide-port constants, docstrings and text requested after simulation are covered.',
-    'Programs = every behavioural library block the generator transpiles plus a generated family of behavioural classes covering the statement\'s subset (each operator in each template position, if/elif/else nests, match/case incl. guards and or-patterns, ternaries, and/or/not, locals, integer state, constructor argument, parameter; clock and propagate variants). For each: refusal is accepted; returned text must parse/elaborate; the product (py4hw state x Verilog-interpreter state) is explored breadth-first with all input vectors per step, comparing outputs and same-named state variables after every cycle; out-of-domain transitions pruned by an interpreter of the Python body.',
+chk('C02', 'model_checking',
+    'Programs = every behavioural library block the generator transpiles plus a generated family of behavioural classes covering the statement\'s subset (each operator in each template position, if/elif/else nests, match/case incl. guards and or-patterns, ternaries, and/or/not, locals, integer state, constructor argument, parameter; clock and propagate variants). For each: refusal is accepted; returned text must parse/elaborate; the product (py4hw state x Verilog-interpreter state) is explored breadth-first with all input vectors per step, comparing outputs and same-named state variables after every cycle; out-of-domain transitions pruned by an interpreter of the Python body. A decoy class whose port names are the programs\' variable names is transpiled first in every shard; must-refuse probes, wide-port constants, docstrings and text requested after simulation are covered.',
     'Verilog engine trusted as in C01; program family bounded by the grammar depth (1 quick, 2 thorough) and 1-4 width combinations; graphs whose state variable grows without bound are cut at depth 64 / the state cap and reported as capped.',
     'bounded exhaustive program enumeration + explicit-state product model checking (translation validation by exploration)',
     'DESIGN.md 3, 4/C02')
@@ -83,8 +83,8 @@ chk('C06', 'exploration',
     'Widths above the bound not covered; the same width monitor also runs inside the explorers of the state-graph checks.',
     'bounded exhaustive input/configuration enumeration with an invariant monitor on every wire',
     'DESIGN.md 4/C06')
-chk('C17', 'model_checking Directed closed-loop runs cover 100 to 2000 clocks per bit and a data bus wider than 8 bits; another UART link stopped in the middle of a frame stays alive in the process.',
-    'Closed loop UARTSerializer -> line -> ClockGenerationAndRecovery + UARTDeserializer explored breadth-first per divider ratio and byte alphabet together with environment automata (producer that raises valid at any cycle and holds it, consumer with a bounded stall budget, independent soft 8N1 receiver on the tx wire) and a FIFO scoreboard; every handshake timing is enumerated to closure; exactly-once / in-order / unchanged delivery, 8N1 framing and bounded liveness are checked on every transition.',
+chk('C17', 'model_checking',
+    'Closed loop UARTSerializer -> line -> ClockGenerationAndRecovery + UARTDeserializer explored breadth-first per divider ratio and byte alphabet together with environment automata (producer that raises valid at any cycle and holds it, consumer with a bounded stall budget, independent soft 8N1 receiver on the tx wire) and a FIFO scoreboard; every handshake timing is enumerated to closure; exactly-once / in-order / unchanged delivery, 8N1 framing and bounded liveness are checked on every transition. Directed closed-loop runs cover 100 to 2000 clocks per bit and a data bus wider than 8 bits; another UART link stopped in the middle of a frame stays alive in the process.',
     'Monitors in mc/refmodels/proto_uart.py trusted; ratios n in {2..6,8} (4..16 clocks per bit), alphabets of 6/16 bytes closed under sequences plus all 256 values pairwise with their complement; consumer stall bounded by 1 (quick) / 8 (thorough) bit periods; <= 2 outstanding bytes. One known finding (F-C17-1) is listed in known_findings.json.',
     'explicit-state model checking of the closed-loop implementation with environment and monitor automata',
     'DESIGN.md 4/C17')
